@@ -118,3 +118,88 @@ theorem C19_trans_headerHasToken : ∀ (h : GB.Bytes → List GB.Bytes) (name to
 /-- the theorems are not vacuous: the regenerated definitions compute -/
 example : GB.Generated.Trans.isGRPCWebContentType [65,80,80,76,73,67,65,84,73,79,78,47,103,114,112,99,45,119,101,98,43] = true := by decide
 example : GB.Generated.Trans.isValidMetadataKey [97, 32] = false := by decide
+
+/-! ## Wave 4: `parseMetadataQuery` — the key-shape test `param[` … `]` and the key slice (fragments)
+
+`mdQuery_keyTest k param` = the condition of `if !(strings.HasPrefix(k, param+"[") && strings.HasSuffix(k, "]")) { continue }`
+(webbridge.go:155, IF-HEAD fragment — the body `continue`s the map loop and is not part of it);
+`mdQuery_mdKey k param` = `mdKey := k[len(param)+1 : len(k)-1]` (webbridge.go:167). -/
+
+theorem GB.C19.TransTie.hasSuffix_eq (s p : Bytes) : GB.Trans.hasSuffix s p = GB.C19.hasSuffix s p := by
+  unfold GB.Trans.hasSuffix GB.C19.hasSuffix
+  rw [Bool.and_comm]
+
+/-- the regenerated skip condition is the negation of the model's key-shape predicate -/
+theorem C19_trans_mdQuery_keyTest : ∀ k param : GB.Bytes,
+    GB.Generated.Trans.mdQuery_keyTest k param = !GB.C19.isMetaKey param k := by
+  intro k param
+  unfold GB.Generated.Trans.mdQuery_keyTest GB.C19.isMetaKey
+  rw [hasSuffix_eq]
+  rfl
+
+/-- the regenerated slice arithmetic is the model's `mdKeyOf` (for every key, bracketed or not: both clamp alike) -/
+theorem C19_trans_mdQuery_mdKey : ∀ k param : GB.Bytes,
+    GB.Generated.Trans.mdQuery_mdKey k param = GB.C19.mdKeyOf param k := by
+  intro k param
+  unfold GB.Generated.Trans.mdQuery_mdKey GB.C19.mdKeyOf GB.Trans.slice GB.Trans.len
+  have h1 : (Int.ofNat param.length + 1).toNat = param.length + 1 := by simp only [Int.ofNat_eq_natCast]; omega
+  have h2 : (Int.ofNat k.length - 1).toNat = k.length - 1 := by simp only [Int.ofNat_eq_natCast]; omega
+  rw [h1, h2, List.drop_take]
+
+/-- the loop body of `parseMetadataQuery` for one `(k, vals)` of the query map, over the REGENERATED key test, key
+    slice and key/value validity predicates -/
+theorem C19_trans_mdStep : ∀ (param : GB.Bytes) (md : GB.C19.MD) (e : GB.Bytes × List GB.Bytes),
+    GB.C19.mdStep param md e =
+      if GB.Generated.Trans.mdQuery_keyTest e.1 param then md
+      else if !GB.Generated.Trans.isValidMetadataKey (GB.Generated.Trans.mdQuery_mdKey e.1 param) then md
+      else (e.2.filter GB.Generated.Trans.isValidMetadataValue).foldl
+        (fun m v => GB.C19.mdAppend1 m (GB.Generated.Trans.mdQuery_mdKey e.1 param) v) md := by
+  intro param md e
+  have hv : GB.Generated.Trans.isValidMetadataValue = GB.C19.isValidMetadataValue := funext C19_trans_isValidMetadataValue
+  rw [C19_trans_mdQuery_keyTest, C19_trans_mdQuery_mdKey, C19_trans_isValidMetadataKey, hv]
+  rfl
+
+/-- a key that passes the test has the shape `param ++ "[" ++ mdKey ++ "]"` with `mdKey` the regenerated slice -/
+theorem C19_trans_mdQuery_shape : ∀ k param : GB.Bytes,
+    GB.Generated.Trans.mdQuery_keyTest k param = false →
+    k = param ++ [91] ++ GB.Generated.Trans.mdQuery_mdKey k param ++ [93] := by
+  intro k param h
+  rw [C19_trans_mdQuery_keyTest] at h
+  rw [C19_trans_mdQuery_mdKey]
+  have h : GB.C19.isMetaKey param k = true := by simpa using h
+  unfold GB.C19.isMetaKey GB.C19.hasPrefix GB.C19.hasSuffix at h
+  simp only [Bool.and_eq_true, beq_iff_eq, decide_eq_true_eq, List.length_cons, List.length_nil] at h
+  obtain ⟨h1, h2, h3⟩ := h
+  have hl : (k.take (param ++ [91]).length).length = (param ++ [91]).length := by rw [h1]
+  simp only [List.length_take, List.length_append, List.length_cons, List.length_nil] at hl
+  have hlen : param.length + 2 ≤ k.length := by
+    by_cases hk : k.length = param.length + 1
+    · exfalso
+      have e1 : k = param ++ [91] := by
+        have := h1
+        rw [List.take_of_length_le (by simp; omega)] at this
+        exact this
+      rw [e1] at h2
+      simp at h2
+    · omega
+  simp only [List.length_append, List.length_cons, List.length_nil] at h1
+  unfold GB.C19.mdKeyOf
+  have e1 : k = k.take (param.length + 1) ++ k.drop (param.length + 1) := (List.take_append_drop _ _).symm
+  have e2 : k.drop (param.length + 1) =
+      (k.drop (param.length + 1)).take (k.length - 1 - (param.length + 1)) ++
+      (k.drop (param.length + 1)).drop (k.length - 1 - (param.length + 1)) := (List.take_append_drop _ _).symm
+  have e3 : (k.drop (param.length + 1)).drop (k.length - 1 - (param.length + 1)) = [93] := by
+    rw [List.drop_drop]
+    have : param.length + 1 + (k.length - 1 - (param.length + 1)) = k.length - 1 := by omega
+    first
+      | (rw [this]; exact h2)
+      | (have t2 : (k.length - 1 - (param.length + 1)) + (param.length + 1) = k.length - 1 := by omega
+         rw [t2]; exact h2)
+  rw [e3] at e2
+  calc k = k.take (param.length + 1) ++ k.drop (param.length + 1) := e1
+    _ = (param ++ [91]) ++ ((k.drop (param.length + 1)).take (k.length - 1 - (param.length + 1)) ++ [93]) := by rw [h1, ← e2]
+    _ = _ := by simp [List.append_assoc]
+
+example : GB.Generated.Trans.mdQuery_keyTest [109, 91, 120, 93] [109] = false := by decide   -- "m[x]", param "m"
+example : GB.Generated.Trans.mdQuery_keyTest [109, 91, 120] [109] = true := by decide        -- "m[x"
+example : GB.Generated.Trans.mdQuery_mdKey [109, 91, 120, 93] [109] = [120] := by decide
